@@ -264,7 +264,7 @@ Partially_Reduced_Product<D1, D2, R>
     return true;
   }
   // If both d1 and d2 are bounded from above, then use the minimum values.
-  if (sup2_d * sup1_n >= sup1_d * sup2_n) {
+  if (sup2_d * sup1_n <= sup1_d * sup2_n) {
     sup_n = sup1_n;
     sup_d = sup1_d;
     maximum = maximum1;
@@ -317,8 +317,8 @@ Partially_Reduced_Product<D1, D2, R>
     minimum = minimum1;
     return true;
   }
-  // If both d1 and d2 are bounded from below, then use the minimum values.
-  if (inf2_d * inf1_n <= inf1_d * inf2_n) {
+  // If both d1 and d2 are bounded from below, then use the maximum values.
+  if (inf2_d * inf1_n >= inf1_d * inf2_n) {
     inf_n = inf1_n;
     inf_d = inf1_d;
     minimum = minimum1;
@@ -377,7 +377,7 @@ Partially_Reduced_Product<D1, D2, R>
     return true;
   }
   // If both d1 and d2 are bounded from above, then use the minimum values.
-  if (sup2_d * sup1_n >= sup1_d * sup2_n) {
+  if (sup2_d * sup1_n <= sup1_d * sup2_n) {
     sup_n = sup1_n;
     sup_d = sup1_d;
     maximum = maximum1;
@@ -437,8 +437,8 @@ Partially_Reduced_Product<D1, D2, R>
     g = g1;
     return true;
   }
-  // If both d1 and d2 are bounded from below, then use the minimum values.
-  if (inf2_d * inf1_n <= inf1_d * inf2_n) {
+  // If both d1 and d2 are bounded from below, then use the maximum values.
+  if (inf2_d * inf1_n >= inf1_d * inf2_n) {
     inf_n = inf1_n;
     inf_d = inf1_d;
     minimum = minimum1;
